@@ -207,7 +207,7 @@ fn f9_shape(spec: &Spec) -> bool {
 
 pub fn run(args: Args) -> ! {
     let mut rep = Report::new("C05", args.tier, args.seed);
-    rep.rule = "documents from a nesting grammar: header path (table or array of tables) x dotted key x nested arrays / inline tables / inline tables with dotted keys, each depth drawn around 1, 20, 78-81, hundreds and thousands, combined multiplicatively; each input is handled by a worker process on a 2 MiB thread in a debug and a release build (parse, print, debug-print, clone, drop, from_document, toml::from_str). Oracle: the worker survives; accepted => decoded depth <= 256; rejected => never for total nesting <= 40 (whether the message names the recursion limit is recorded as a class); per single construct the smallest rejected depth exists and every smaller depth (in particular <= 79) is accepted. non-trivial = >= 2 different constructs with total depth >= 60; distinct by text".into();
+    rep.rule = "documents from a nesting grammar: header path (table or array of tables) x dotted key x nested arrays / inline tables / inline tables with dotted keys, each depth drawn around 1, 20, 78-81, hundreds and thousands, combined multiplicatively; each input is handled by a worker process on a 2 MiB thread in a debug and a release build (parse, print, debug-print, clone, drop, from_document, toml::from_str). Oracle: the worker survives; accepted => decoded depth <= 256; rejected => never for total nesting <= 40 (whether the message names the recursion limit is recorded as a class); per single construct the smallest rejected depth exists and every smaller depth (in particular <= 79) is accepted; wide documents (79..600 shallow siblings of 14 kinds as lines, array elements and inline-table entries, optionally followed by a construct nested 40 or 70 deep; hundreds of headers and dotted keys) are accepted. non-trivial = >= 2 different constructs with total depth >= 60; distinct by text".into();
     rep.assumptions = vec!["the exact limit is recorded, not asserted (only: <= 79 accepted, some depth <= 200 rejected)".into()];
     let known_f9 = rep.is_known("F9");
     for p in ["debug", "release"] {
@@ -281,6 +281,63 @@ pub fn run(args: Args) -> ! {
         }
     }
     rep.extra.insert("smallest_rejected_depth".into(), serde_json::Value::Object(limits));
+
+    // ---- wide, not deep: many shallow siblings (and then one construct nested below the limit).
+    // The depth counter has to be balanced: nesting that was left does not count any more.
+    {
+        const UNITS: [&str; 14] = ["[]", "[ ]", "{}", "{ }", "[[]]", "[{}]", "{a={}}", "{a=[]}", "[[],[]]", "{a.b=1}", "[1,[2,[3]]]", "{a={b={c=1}}}", "[\n]", "\"\""];
+        let mut texts: Vec<String> = vec![];
+        let mut names: Vec<String> = vec![];
+        for u in UNITS {
+            for n in [79usize, 80, 81, 200, 600] {
+                for tail in [0usize, 40, 70] {
+                    let mut s = String::new();
+                    for i in 0..n {
+                        s.push_str(&format!("e{i} = {u}\n"));
+                    }
+                    // also as elements of one array and as entries of one inline table
+                    s.push_str(&format!("arr = [{}]\n", vec![u; n].join(", ")));
+                    s.push_str(&format!("inl = {{{}}}\n", (0..n).map(|i| format!("k{i} = {}", u.replace('\n', ""))).collect::<Vec<_>>().join(", ")));
+                    if tail > 0 {
+                        s.push_str(&format!("deep = {}1{}\n", "[".repeat(tail), "]".repeat(tail)));
+                        s.push_str(&format!("deepi = {}1{}\n", "{a=".repeat(tail), "}".repeat(tail)));
+                    }
+                    names.push(format!("{n} x `{}` then depth {tail}", u.escape_debug()));
+                    texts.push(s);
+                }
+            }
+        }
+        // headers and dotted keys leave nothing behind either
+        for n in [100usize, 400] {
+            let mut s = String::new();
+            for i in 0..n {
+                s.push_str(&format!("[t{i}.a.b.c]\nx.y.z = 1\n[[u.v{i}]]\n"));
+            }
+            s.push_str(&format!("deep = {}1{}\n", "[".repeat(70), "]".repeat(70)));
+            names.push(format!("{n} headers and dotted keys then depth 70"));
+            texts.push(s);
+        }
+        for prof in ["debug", "release"] {
+            let outs = run_batch(prof, &texts);
+            for (i, o) in outs.iter().enumerate() {
+                rep.stats.eval();
+                rep.stats.class("wide");
+                rep.stats.nontrivial(fnv64(texts[i].as_bytes()));
+                let bad = match o {
+                    Outcome::Accept { depth } if *depth <= 80 => None,
+                    Outcome::Accept { depth } => Some(format!("accepted with decoded depth {depth}")),
+                    Outcome::Reject { msg, .. } => Some(format!("rejected: {}", msg.lines().last().unwrap_or(""))),
+                    Outcome::Died => Some("the worker died".to_string()),
+                    Outcome::Panic => Some("the worker panicked".to_string()),
+                };
+                if let Some(b) = bad {
+                    let f = Failure::new("wide", format!("[{prof}] a wide, shallow document ({}; every construct nested at most 70 deep) is not handled: {b}", names[i]), json!({"text": texts[i], "build": prof}));
+                    rep.violation("wide", None, &f);
+                    break;
+                }
+            }
+        }
+    }
 
     // ---- combinations
     let n = args.tier.pick(1500usize, 40_000usize);
